@@ -10,9 +10,9 @@ PROPERTY = 'C18'
 OPTS = dict(timeout=60000, maxpaths=3000)
 
 
-def h_scan(cx):
-    """justification of the partial-read classes: the readers use the result of fp.read only through len(t) < 4, truthiness and
-    struct.unpack (AST scan of the current source, repeated on every run)"""
+def scan_source():
+    """(reads, bad uses, length tests) of the current openQCD reader source: the results of fp.read may only flow into struct.unpack,
+    len(...) compared with the number of bytes just requested, and truthiness, for the partial-read classes of the file model to be exact"""
     import pyerrors.input.openQCD as Q
     tree = ast.parse(inspect.getsource(Q))
     reads = set()
@@ -20,18 +20,13 @@ def h_scan(cx):
         if isinstance(node, ast.Assign) and isinstance(node.value, ast.Call) and ast.unparse(node.value.func) == 'fp.read':
             for t in node.targets:
                 reads.add(ast.unparse(t))
-    cx.expect(reads <= {'t', 'cnfgt'}, 'names bound to fp.read results', str(sorted(reads)))
     bad = []
-    # flow-sensitive in source order per function: a name counts as "read result" from an `x = fp.read(..)` assignment until it is re-bound
     for fdef in [n for n in ast.walk(tree) if isinstance(n, ast.FunctionDef)]:
         parent = {}
         for n in ast.walk(fdef):
             for ch in ast.iter_child_nodes(n):
                 parent[ch] = n
-        events = []
-        for n in ast.walk(fdef):
-            if isinstance(n, ast.Name) and n.id in reads:
-                events.append((n.lineno, n.col_offset, n))
+        events = [(n.lineno, n.col_offset, n) for n in ast.walk(fdef) if isinstance(n, ast.Name) and n.id in reads]
         state = {}
         for _, _, n in sorted(events, key=lambda e: (e[0], e[1])):
             par = parent.get(n)
@@ -44,11 +39,24 @@ def h_scan(cx):
             ok = (isinstance(par, ast.Call) and ast.unparse(par.func) in ('struct.unpack', 'len')) or (isinstance(par, ast.UnaryOp) and isinstance(par.op, ast.Not))
             if not ok:
                 bad.append((n.lineno, ast.unparse(par) if par is not None else ''))
-    cx.expect(not bad, 'read results only flow into struct.unpack / len / not', str(bad[:5]))
-    lens = [ast.unparse(n) for n in ast.walk(tree) if isinstance(n, ast.Compare) and 'len(t)' in ast.unparse(n)]
-    # a length test may only compare with the number of bytes that was requested by the read before it (4, or 8 * tmax in the sfqcd reader):
-    # every partial length then behaves alike, which is what the partial-read classes of the file model assume
-    cx.expect(set(lens) <= {'len(t) < 4', 'len(t) < 8 * tmax'}, 'length tests', str(set(lens)))
+    lens = set(ast.unparse(n) for n in ast.walk(tree) if isinstance(n, ast.Compare) and 'len(t)' in ast.unparse(n))
+    return reads, bad, lens
+
+
+def abstraction_justified():
+    try:
+        reads, bad, lens = scan_source()
+    except Exception:
+        return False
+    return reads <= {'t', 'cnfgt'} and not bad and lens <= {'len(t) < 4', 'len(t) < 8 * tmax'}
+
+
+def h_scan(cx):
+    """justification of the partial-read classes (AST scan of the current source, repeated on every run). If the scan does not justify them
+    the read jobs fall back to byte-exact partial lengths (every truncation offset its own path class)."""
+    reads, bad, lens = scan_source()
+    ok = abstraction_justified()
+    cx.ok('partial-read classes %s (reads %s, other uses %s, length tests %s)' % ('justified' if ok else 'NOT justified: byte-exact fallback', sorted(reads), bad[:3], sorted(lens)))
 
 
 HARNESSES = dict(read=h_read, scan=h_scan)
@@ -56,9 +64,12 @@ HARNESSES = dict(read=h_read, scan=h_scan)
 
 def jobs(tier, seed):
     J = [dict(harness='scan', params={})]
+    exact = not abstraction_justified()
 
     def add(**p):
-        J.append(dict(harness='read', params=p))
+        if exact:
+            p['exact'] = True
+        J.append(dict(harness='read', params=p, opts=dict(maxpaths=30000) if exact else {}))
     for fmt in ('rwms14', 'rwms16', 'rwms20', 'qtop', 'ms5'):
         add(fmt=fmt, reps=['r0'], nrec=[6], first=[1], step=[1], truncate=0)
         add(fmt=fmt, reps=['r0', 'r1'], nrec=[5, 7], first=[1, 1], step=[1, 1], truncate=1)
